@@ -40,7 +40,8 @@ noncomputable def mssem : SSem K (X → K) (Matrix X X K) :=
     dIsComplex := dcomplex
     dMinNeg := dminneg
     dMinZero := dminzero
-    blockRow := blockRow }
+    blockRow := blockRow
+    multiKeys := fun _ => [] }
 
 local notation "SS" => mssem isReal re blocks leaf sqrt kneg dcomplex dminneg dminzero blockRow
 local notation "S0" => msem isReal re blocks leaf
